@@ -1,6 +1,7 @@
 import PortusModel.Props.C02
 import PortusModel.Props.C02History
 import PortusModel.Props.C02Loop
+import PortusModel.Props.C02Bytes
 #print axioms Portus.C02.other_ignored
 #print axioms Portus.C02.measure_unknown_ignored
 #print axioms Portus.C02.report_delivered
@@ -18,3 +19,5 @@ import PortusModel.Props.C02Loop
 #print axioms Portus.C02.Abs_init
 #print axioms Portus.C02.loop_calls_eq_hist_calls
 #print axioms Portus.C02.loop_refines_flat_map
+#print axioms Portus.C02.wellformed_script_calls_prefix
+#print axioms Portus.C02.wellformed_script_calls_eq_spec
